@@ -11,6 +11,27 @@ from . import terms as T
 from .terms import C, V, Term
 
 
+_PINNED = None
+
+
+def is_new_helper(fn) -> bool:
+    """True for a repository function that did not exist on the pinned tree (see sa/pinned_functions.json)"""
+    global _PINNED
+    if _PINNED is None:
+        import json, os
+        with open(os.path.join(os.path.dirname(__file__), "pinned_functions.json")) as f:
+            _PINNED = set(json.load(f)["functions"])
+    return fn is not None and fn.qualname not in _PINNED and not fn.module.is_test
+
+
+def _new_property_names(ctx) -> set:
+    names = getattr(ctx, "_new_props", None)
+    if names is None:
+        names = {f.name for f in ctx.p.functions.values() if f.is_property and is_new_helper(f)}
+        ctx._new_props = names
+    return names
+
+
 class Ctx:
     """Shared analysis context (one per run)."""
 
@@ -128,7 +149,7 @@ class Normalizer:
         t = T.mk_attr(base, name)
         if t in self.heap:
             return self.heap[t]
-        if self.inline > 0:
+        if self.inline > 0 or e.attr in _new_property_names(self.ctx):
             r = self._inline_property(e, base)
             if r is not None:
                 return r
@@ -352,7 +373,39 @@ class Normalizer:
             for _ in range(pushed):
                 self.scopes.pop()
                 self.level -= 1
-        return ("comp", kind, elt, tuple(gens))
+        return self._flatten_comp(("comp", kind, elt, tuple(gens)))
+
+    def _flatten_comp(self, t: Term) -> Term:
+        """[E(y) for y in [F(x) for x in xs] ...]  ==  [E(F(x)) for x in xs ...]: a comprehension iterating directly over
+        another comprehension is read as one comprehension (bound variables are renumbered)."""
+        kind, elt, gens = t[1], t[2], t[3]
+        if kind == "dict" or not gens:
+            return t
+        it0, ifs0 = gens[0]
+        while it0[0] == "call" and it0[1] in ("list", "iter", "tuple") and len(it0[2]) == 1 and not it0[3]:
+            it0 = it0[2][0]
+        if not (it0[0] == "comp" and it0[1] in ("list", "gen", "tuple")):
+            return t
+        L = self.level                      # level of the first bound variable of both comprehensions
+        inner_elt, inner_gens = it0[2], it0[3]
+        m = len(inner_gens)
+
+        def remap(x: Term) -> Term:
+            if x[0] == "bv":
+                if x[1] == L:
+                    return inner_elt
+                if x[1] > L:
+                    return ("bv", x[1] + m - 1)
+                return x
+            return T.rebuild(x, remap)
+        new_gens = list(inner_gens)
+        if ifs0:
+            last_it, last_ifs = new_gens[-1]
+            new_gens[-1] = (last_it, tuple(last_ifs) + tuple(remap(c) for c in ifs0))
+        for it, ifs in gens[1:]:
+            new_gens.append((remap(it), tuple(remap(c) for c in ifs)))
+        new_elt = remap(elt) if not isinstance(elt, tuple) or not elt or isinstance(elt[0], str) else elt
+        return ("comp", kind, new_elt, tuple(new_gens))
 
     def n_ListComp(self, e, b):
         return self._comp("list", lambda: self.norm(e.elt), e.generators)
@@ -428,14 +481,69 @@ class Normalizer:
                 r = self._inline_call(c.fn, params, e, recv)
                 if r is not None:
                     return r
+            elif len(repo) == 1 and self.level < 12 and is_new_helper(c.fn) and c.fn is not self.fn:
+                # a helper that did not exist on the pinned tree: read the call through its body
+                saved = self.inline
+                self.inline = max(self.inline, 1)
+                try:
+                    r = self._inline_call(c.fn, params, e, recv)
+                finally:
+                    self.inline = saved
+                if r is not None:
+                    return r
             return ("app", c.fn.qualname, recv, self._bound(params, e))
-        args, kwargs = self._args(e)
         dotted = self._dotted_external(f)
+        if dotted is not None:
+            canon = self._canonical_iteration(dotted, e)
+            if canon is not None:
+                return canon
+        args, kwargs = self._args(e)
         if dotted is not None:
             return T.mk_call(dotted, args, kwargs)
         if isinstance(f, ast.Attribute):
             return ("mcall", self.norm(f.value), f.attr, args, kwargs)
         return ("mcall", self.norm(f), "__call__", args, kwargs)
+
+    # ------------------------------------------------------------------ iteration idioms -> comprehensions
+    def _canonical_iteration(self, dotted: str, e: ast.Call) -> Optional[Term]:
+        """map(f, xs) / filter(f, xs) / chain.from_iterable(<comprehension>) / chain(a, b) are read as the comprehension (or
+        concatenation) they abbreviate, so a rule sees one shape whichever way the code is written."""
+        if e.keywords or any(isinstance(a, ast.Starred) for a in e.args):
+            return None
+        if dotted in ("map", "filter") and len(e.args) == 2:
+            f, xs = e.args
+            var = f"__it{self.level}"
+            if isinstance(f, ast.Lambda) and len(f.args.args) == 1 and not f.args.posonlyargs and not f.args.kwonlyargs \
+                    and f.args.vararg is None and not f.args.defaults:
+                target = ast.Name(id=f.args.args[0].arg, ctx=ast.Store())
+                body = f.body
+                load = ast.Name(id=f.args.args[0].arg, ctx=ast.Load())
+            elif isinstance(f, ast.Constant) and f.value is None and dotted == "filter":
+                target = ast.Name(id=var, ctx=ast.Store())
+                load = ast.Name(id=var, ctx=ast.Load())
+                body = load
+            elif isinstance(f, (ast.Name, ast.Attribute)):
+                target = ast.Name(id=var, ctx=ast.Store())
+                load = ast.Name(id=var, ctx=ast.Load())
+                body = ast.Call(func=f, args=[load], keywords=[])
+            else:
+                return None
+            if dotted == "map":
+                gen = ast.GeneratorExp(elt=body, generators=[ast.comprehension(target=target, iter=xs, ifs=[], is_async=0)])
+            else:
+                gen = ast.GeneratorExp(elt=load, generators=[ast.comprehension(target=target, iter=xs, ifs=[body], is_async=0)])
+            ast.copy_location(gen, e)
+            ast.fix_missing_locations(gen)
+            return self.norm(gen)
+        if dotted in ("itertools.chain.from_iterable", "chain.from_iterable") and len(e.args) == 1:
+            inner = self.norm(e.args[0])
+            if inner[0] == "comp" and inner[1] in ("list", "gen", "tuple"):
+                n = len(inner[3])
+                return ("comp", "gen", ("bv", self.level + n), inner[3] + ((inner[2], ()),))
+            return None
+        if dotted in ("itertools.chain", "chain") and len(e.args) >= 2:
+            return ("concat", tuple(self.norm(a) for a in e.args))
+        return None
 
     def scopes_shadow(self, f: ast.expr) -> bool:
         """True when the callee expression is rooted at a bound variable (lambda parameter, comprehension
@@ -480,7 +588,7 @@ class Normalizer:
         ms = self.ctx.p.lookup_overrides(bt.cls, e.attr, self.cls)
         if len(ms) != 1 or not ms[0].is_property:
             return None
-        if self.inline_ok is not None and not self.inline_ok(ms[0]):
+        if self.inline_ok is not None and not self.inline_ok(ms[0]) and not is_new_helper(ms[0]):
             return None
         return self._inline_body(ms[0], {}, base)
 
@@ -536,6 +644,33 @@ class Normalizer:
                 if bterm is None:
                     return None
                 return T.mk_select(c, a, bterm)
+            if isinstance(s, ast.For) and i == len(stmts) - 1:
+                # a generator function that is nothing but a loop nest around one `yield E`  ==  (E for ... in ... if ...)
+                gens = []
+                node = s
+                while True:
+                    if isinstance(node, ast.For) and not node.orelse and len(node.body) == 1:
+                        gens.append(ast.comprehension(target=node.target, iter=node.iter, ifs=[], is_async=0))
+                        node = node.body[0]
+                    elif isinstance(node, ast.If) and not node.orelse and len(node.body) == 1 and gens:
+                        gens[-1].ifs.append(node.test)
+                        node = node.body[0]
+                    else:
+                        break
+                if isinstance(node, ast.Expr) and isinstance(node.value, ast.Yield) and node.value.value is not None and gens:
+                    gen = ast.GeneratorExp(elt=node.value.value, generators=gens)
+                    ast.copy_location(gen, s)
+                    ast.fix_missing_locations(gen)
+                    return self.norm(gen)
+                if isinstance(node, ast.Expr) and isinstance(node.value, ast.YieldFrom) and gens:
+                    var = ast.Name(id=f"__y{self.level}", ctx=ast.Load())
+                    gens.append(ast.comprehension(target=ast.Name(id=var.id, ctx=ast.Store()), iter=node.value.value, ifs=[],
+                                                  is_async=0))
+                    gen = ast.GeneratorExp(elt=var, generators=gens)
+                    ast.copy_location(gen, s)
+                    ast.fix_missing_locations(gen)
+                    return self.norm(gen)
+                return None
             return None
         return None
 
